@@ -597,6 +597,11 @@ func (bc *boundsCtx) rng(v ssa.Value, b *ssa.BasicBlock) irange {
 				}
 			}
 		}
+		if cn := calleeName(x); (strings.HasPrefix(cn, "slices.IndexFunc") || strings.HasPrefix(cn, "slices.Index[") || cn == "slices.Index") && len(x.Call.Args) == 2 {
+			// -1 or a position in the slice
+			r.lo = -1
+			r.ltLenOf = x.Call.Args[0]
+		}
 		switch calleeName(x) {
 		case "strings.Index", "strings.IndexByte", "bytes.Index", "bytes.IndexByte", "strings.LastIndex":
 			// -1 or a position p with p+len(sub) <= len(s); for a non-empty needle p < len(s)
